@@ -33,17 +33,20 @@ vars == <<sec, disk, auditOK, last, l>>
 
 M == INSTANCE TraceMatch
 
-Step(e) ==
-  CASE e.op = "info"     -> V!Info(e.who, e.rules, e.name, e.fault)
-    [] e.op = "get"      -> V!Get(e.who, e.rules, e.name, e.fault)
-    [] e.op = "getver"   -> V!GetVersion(e.who, e.rules, e.name, e.ver, e.fault)
-    [] e.op = "getcond"  -> V!GetCond(e.who, e.rules, e.name, e.ver, e.fault)
-    [] e.op = "put"      -> V!Put(e.who, e.rules, e.name, e.val, e.fault)
-    [] e.op = "activate" -> V!Activate(e.who, e.rules, e.name, e.ver, e.fault)
-    [] e.op = "delver"   -> V!DeleteVersion(e.who, e.rules, e.name, e.ver, e.fault)
-    [] e.op = "delete"   -> V!Delete(e.who, e.rules, e.name, e.fault)
-    [] e.op = "list"     -> V!List(e.who, e.rules, e.fault)
+StepF(e, f) ==
+  CASE e.op = "info"     -> V!Info(e.who, e.rules, e.name, f)
+    [] e.op = "get"      -> V!Get(e.who, e.rules, e.name, f)
+    [] e.op = "getver"   -> V!GetVersion(e.who, e.rules, e.name, e.ver, f)
+    [] e.op = "getcond"  -> V!GetCond(e.who, e.rules, e.name, e.ver, f)
+    [] e.op = "put"      -> V!Put(e.who, e.rules, e.name, e.val, f)
+    [] e.op = "activate" -> V!Activate(e.who, e.rules, e.name, e.ver, f)
+    [] e.op = "delver"   -> V!DeleteVersion(e.who, e.rules, e.name, e.ver, f)
+    [] e.op = "delete"   -> V!Delete(e.who, e.rules, e.name, f)
+    [] e.op = "list"     -> V!List(e.who, e.rules, f)
     [] OTHER -> FALSE
+\* the recorded fault is what the driver injected into this call; after an earlier failed audit write the writer may
+\* still be latched (the pinned encoder is) or may have recovered -- both are behaviours of the specification
+Step(e) == StepF(e, e.fault) \/ (e.fault = "none" /\ ~auditOK /\ StepF(e, "latched"))
 
 TraceOp ==
   /\ l <= Len(Trace) /\ Trace[l].ev = "op"
